@@ -71,7 +71,8 @@ Theorem C03_rejects_misplaced_after_langid : forall toks id t rest,
 Proof. exact misplaced_after_langid. Qed.
 Example C03_reject_class_instances :
   spec_langid_prefix (split (bs "en-US-u-ca-buddhist-a-foo"%string))
-    = Some (mkLangId (Some (bs "en")) None (Some (bs "US")) None, [bs "u"; bs "ca"; bs "buddhist"] ++ bs "a" :: [bs "foo"])%string
+    = Some (mkLangId (Some (bs "en"%string)) None (Some (bs "US"%string)) None,
+            ([bs "u"%string; bs "ca"%string; bs "buddhist"%string] ++ bs "a"%string :: [bs "foo"%string])%list)
   /\ no_x [bs "u"; bs "ca"; bs "buddhist"]%string = true /\ utx (bs "a"%string) = false
   /\ single_is 117 (bs "U"%string) = true.
 Proof. vm_compute. repeat split; reflexivity. Qed.
